@@ -66,7 +66,7 @@ META = {
         "over maxsplit, separator tests, slices, padding, len() guards). An origin that only runs under a flag parameter which every "
         "package-internal call chain fixes to False is dead for entries outside that chain. "
         "R2 token_line() without default only where the token carries a map (the map propagation loop may live in a helper that "
-        "_render_tokens always calls). R3 HTML attribute values are never None. R4 text re-entering nested_render_text that is not a "
+        "_render_tokens always calls; a private helper inherits the table entry of the handlers that are its only callers). R3 HTML attribute values are never None. R4 text re-entering nested_render_text that is not a "
         "substring of the current text (file content, Jinja output - also through a compiled-template helper) sits behind a paired "
         "in-progress guard (try/finally or a @contextmanager that brackets its yield); the guard of included files must be keyed by an "
         "absolute normalised path (normpath/abspath/realpath/resolve). Asserts are discharged when they restate a proved fact: the docutils "
@@ -85,7 +85,9 @@ META = {
         "document.nameids (None for duplicated names, confirmed in docutils/nodes.py) is None-tested before it keys document.ids. R16 a myst_* "
         "attribute of document.settings (absent when the parser runs through the rST include directive's :parser: option) is read with "
         "getattr+default unless the package itself stored it: in the function, at every call site, or - for code that only runs after the "
-        "parse - on every path of render(). R11 also requires ignoreInvalid=True when configured names go to MarkdownIt.disable() (it raises "
+        "parse - on every path of render(). R17 a nodes.transition is attached only to a node that is provably the document or a section, because docutils' "
+        "Transitions transform (part of the standard pipeline) asserts that for a transition that is the first child of its parent (read "
+        "from docutils/transforms/misc.py; render_hr is the known finding F9). R11 also requires ignoreInvalid=True when configured names go to MarkdownIt.disable() (it raises "
         "ValueError for unknown names, read from markdown_it/main.py)."
     ),
     "not_decided": (
@@ -340,6 +342,39 @@ TOKEN_LINE_OK = {
 }
 
 
+def _helper_of_tabled_handler(corpus: Corpus, fi: FunctionInfo, call: ast.Call, depth: int = 0) -> str | None:
+    """The token handed to token_line() is a parameter of a private helper, and every call site of the helper lies in a
+    handler whose tokens carry a map (or in such a helper again): the table entry of the handler carries over."""
+    if depth > 2 or not call.args or not isinstance(call.args[0], ast.Name) or call.args[0].id not in fi.params or _rebound(fi, call.args[0].id):
+        return None
+    g = get_callgraph(corpus)
+    sites = g.callers().get(fi.fq, [])
+    if not sites:
+        return None
+    reasons = []
+    for caller, c in sites:
+        if caller.qualname in TOKEN_LINE_OK:
+            reasons.append(f"{caller.qualname}: {TOKEN_LINE_OK[caller.qualname]}")
+            continue
+        # the caller hands on one of its own parameters
+        a = fi.node.args
+        pos = [x.arg for x in a.posonlyargs + a.args]
+        ppos = pos[1:] if fi.cls is not None and isinstance(c.func, ast.Attribute) and "staticmethod" not in fi.decorators() else pos
+        bound = dict(zip(ppos, c.args))
+        for k_ in c.keywords:
+            if k_.arg:
+                bound[k_.arg] = k_.value
+        v = bound.get(call.args[0].id)
+        if isinstance(v, ast.Name):
+            fake = ast.Call(func=ast.Name(id="token_line", ctx=ast.Load()), args=[v], keywords=[])
+            r = _helper_of_tabled_handler(corpus, caller, fake, depth + 1)
+            if r:
+                reasons.append(r)
+                continue
+        return None
+    return "helper called only from " + "; ".join(sorted(set(reasons)))
+
+
 @rule("C01.R2")
 def r2_token_line(corpus: Corpus, rep: Report, tier: str):
     rep.rule("C01.R2", "token_line(tok) without default only under `if tok.map`, inside suppress/try, or in a handler whose token carries a map")
@@ -388,6 +423,8 @@ def r2_token_line(corpus: Corpus, rep: Report, tier: str):
                 rep.ok("C01.R2", k, site, "guarded by map test / suppress / try")
             elif fi.qualname in TOKEN_LINE_OK:
                 rep.assumed("C01.R2", k, site, TOKEN_LINE_OK[fi.qualname])
+            elif _helper_of_tabled_handler(corpus, fi, call):
+                rep.assumed("C01.R2", k, site, _helper_of_tabled_handler(corpus, fi, call))
             else:
                 rep.violation("C01.R2", k, site, f"token_line({tok}) without default can raise ValueError: {fi.qualname} is not a handler whose token is known to carry a map")
     # the propagation loop that gives inline children their parent's map: in _render_tokens itself or in a helper
@@ -1196,6 +1233,16 @@ def _loop_variant(w: ast.While, fi: FunctionInfo, corpus: Corpus) -> str | None:
             changes = True
         if changes and not modified_coll:
             return f"uniquifier: the candidate embeds a counter incremented every iteration; {coll} is finite and unmodified"
+    # tree ascent: on every cyclic path the cursor is rebound to its own parent (the root of a finite tree has none)
+    for st in w.body:
+        if isinstance(st, ast.Assign) and len(st.targets) == 1 and isinstance(st.targets[0], ast.Name):
+            cur = st.targets[0].id
+            v = st.value
+            if isinstance(v, ast.Attribute) and v.attr == "parent" and isinstance(v.value, ast.Name) and v.value.id == cur:
+                others = [d for d in ast.walk(w) if isinstance(d, ast.Name) and d.id == cur and isinstance(d.ctx, (ast.Store, ast.Del)) and parent(d) is not st]
+                reads_cur = any(isinstance(x, ast.Name) and x.id == cur for x in ast.walk(test))
+                if not others and reads_cur and _every_cyclic_path(w, fi, lambda c, st=st: c is st):
+                    return f"tree ascent: `{cur}` is rebound to its own parent on every cyclic path (the parent chain of a docutils node is finite)"
     # tree descent: on every cyclic path the cursor is rebound to one of its own children (finite tree)
     for st in w.body:
         if not (isinstance(st, ast.Assign) and len(st.targets) == 1 and isinstance(st.targets[0], ast.Name)):
@@ -2984,10 +3031,94 @@ def r15_registry_none(corpus: Corpus, rep: Report, tier: str):
     rep.expect_min("C01.R15", 1, "reads of document.nameids")
 
 
+# ---------------------------------------------------------------------------
+# R17 a transition is only attached where docutils' Transitions transform accepts it
+#
+# docutils' standard pipeline runs ``Transitions`` (transforms/misc.py): for a transition that is the first child of its
+# parent it executes ``assert isinstance(node.parent, (document, section))``.  A ``nodes.transition`` attached below a
+# node that is not provably the document or a section therefore aborts the pipeline with AssertionError.
+
+
+def _transitions_asserts_parent(corpus: Corpus) -> bool:
+    def compute():
+        m = corpus.sibling("docutils/transforms/misc.py")
+        f = m.functions.get("Transitions.visit_transition")
+        if f is None:
+            return True  # not readable: assume the documented behaviour
+        for a in f.local_nodes():
+            if isinstance(a, ast.Assert) and "node.parent" in unparse(a.test) and "isinstance" in unparse(a.test):
+                return True
+        return False
+
+    return corpus.cache("c01-transitions-assert", compute)
+
+
+@rule("C01.R17")
+def r17_transition_parent(corpus: Corpus, rep: Report, tier: str):
+    rep.rule("C01.R17", "a nodes.transition is attached only to a node that is provably the document or a section (docutils' Transitions transform asserts it)")
+    if not _transitions_asserts_parent(corpus):
+        rep.ok("C01.R17", "docutils.transforms.misc:Transitions|parent assertion", "docutils/transforms/misc.py", "this docutils no longer asserts the parent of a transition")
+        return
+    rep.saw_sibling("docutils/transforms/misc.py")
+    n = 0
+
+    def is_transition_ctor(e: ast.AST, fi: FunctionInfo) -> bool:
+        return isinstance(e, ast.Call) and fi.module.resolve(dotted(e.func) or "").endswith("nodes.transition")
+
+    for fi in corpus.all_functions():
+        if fi.is_lambda:
+            continue
+        locals_ = {
+            st.targets[0].id
+            for st in fi.local_nodes()
+            if isinstance(st, ast.Assign) and len(st.targets) == 1 and isinstance(st.targets[0], ast.Name) and is_transition_ctor(st.value, fi)
+        }
+
+        def is_transition(e: ast.AST) -> bool:
+            return is_transition_ctor(e, fi) or (isinstance(e, ast.Name) and e.id in locals_)
+
+        attaches: list[tuple[ast.AST, ast.expr]] = []  # (site, parent expression)
+        for x in fi.local_nodes():
+            if isinstance(x, ast.AugAssign) and isinstance(x.op, ast.Add) and (is_transition(x.value) or (isinstance(x.value, (ast.List, ast.Tuple)) and any(is_transition(e) for e in x.value.elts))):
+                attaches.append((x, x.target))
+            elif isinstance(x, ast.Call) and isinstance(x.func, ast.Attribute) and x.func.attr in ("append", "insert", "extend"):
+                args = list(x.args)
+                flat = [e for a in args for e in (a.elts if isinstance(a, (ast.List, ast.Tuple)) else [a])]
+                if any(is_transition(e) for e in flat):
+                    attaches.append((x, x.func.value))
+        for site_node, par in attaches:
+            n += 1
+            ptxt = unparse(par)
+            k = f"{fi.fq}|transition attached to {ptxt}"
+            site = fi.module.site(site_node)
+            ok = ptxt.split(".")[-1] == "document"
+            if not ok and isinstance(par, ast.Name):
+                d = _single_def(fi, par)
+                ok = isinstance(d, ast.Call) and fi.module.resolve(dotted(d.func) or "").rsplit(".", 1)[-1] in ("section", "document")
+            if not ok:
+                for t, pol in _facts_at(fi, site_node):
+                    if pol and isinstance(t, ast.Call) and dotted(t.func) == "isinstance" and len(t.args) == 2 and unparse(t.args[0]) == ptxt:
+                        classes = t.args[1].elts if isinstance(t.args[1], ast.Tuple) else ([t.args[1].left, t.args[1].right] if isinstance(t.args[1], ast.BinOp) else [t.args[1]])
+                        if classes and all((dotted(c_) or "").rsplit(".", 1)[-1] in ("section", "document") for c_ in classes):
+                            ok = True
+            if ok:
+                rep.ok("C01.R17", k, site, "the parent is the document or a section")
+            else:
+                rep.violation(
+                    "C01.R17",
+                    k,
+                    site,
+                    f"a nodes.transition is attached to `{ptxt}`, which can be any element (block quote, list item, admonition ...): when it is the first child of a parent that is "
+                    "neither the document nor a section (`> ---`), docutils' Transitions transform (transforms/misc.py) fails its "
+                    "`assert isinstance(node.parent, (document, section))` and the standard transform pipeline aborts with AssertionError",
+                )
+    rep.expect_min("C01.R17", 1, "places where a transition is attached")
+
+
 RULES = [
     r1_failure_mode_closure, r2_token_line, r3_html_attr_none, r4_reentry_guards, r5_loop_progress, r6_yaml_narrowing, r7_single_registration,
     r8_nullable_env_slots, r9_document_attributes, r10_config_divisors, r11_disable_syntax, r12_handler_attributes, r13_rebound_loop_key,
-    r14_heading_offset, r15_registry_none, r16_settings_attributes,
+    r14_heading_offset, r15_registry_none, r16_settings_attributes, r17_transition_parent,
 ]
 
 
@@ -3304,6 +3435,19 @@ def mutants(corpus: Corpus):
         out.append(Mutant("c01-disable-ignore-invalid-false", "C01.R11", mdm_.rel, splice(mdm_.src, dcall.args[1], "False"), expect="unknown names"))
     else:
         out.append(("c01-disable-ignore-invalid-dropped", "create_md_parser does not call md.disable(x, True)"))
+    # --- a transition attached below something that need not be the document / a section (R17) ---
+    tmx = corpus.mod("mdit_to_docutils.transforms")
+    f = tmx.func("CollectFootnotes.apply")
+    aug = find_node(f, lambda n: isinstance(n, ast.AugAssign) and isinstance(n.value, ast.Name) and "transition" in n.value.id)
+    if aug is not None:
+        out.append(Mutant("c01-footnote-transition-into-last-child", "C01.R17", tmx.rel, splice(tmx.src, aug.target, f"{unparse(aug.target)}[-1]"), expect="transition attached to"))
+    else:
+        out.append(("c01-footnote-transition-into-last-child", "CollectFootnotes.apply does not attach its transition with +="))
+    f = base.func("DocutilsRenderer.render_myst_block_break") if corpus.has_func("myst_parser.mdit_to_docutils.base:DocutilsRenderer.render_myst_block_break") else None
+    if f is not None and f.body:
+        last = f.body[-1]
+        ind = " " * last.col_offset
+        out.append(Mutant("c01-block-break-emits-transition", "C01.R17", base.rel, splice(base.src, last, segment_(base.src, last) + f"\n{ind}self.current_node.append(nodes.transition())"), expect="render_myst_block_break|transition attached to"))
     # --- include cycle guard keyed by a path that is not normalised (R4) ---
     f = mk.func("MockIncludeDirective.run")
     npc = find_node(f, lambda n: isinstance(n, ast.Call) and (dotted(n.func) or "").endswith("normpath") and isinstance(parent(n), ast.Assign) and isinstance(parent(n).targets[0], ast.Name))
